@@ -79,6 +79,9 @@ def cases_for(ctx):
     cases.append({'behaviours': [E, 'exit0', E, D], 'recycle': 3, 'consume': 'full'})
     cases.append({'behaviours': [E, 'die_holding_event_lock', E, E, D], 'recycle': 5, 'consume': 'full'})
     cases.append({'behaviours': [E, E, D, E, E], 'recycle': 2, 'consume': 'full', 'second_run_while_first_suspended': True})
+    # the caller's listing is an iterator object whose next() keeps failing once its store is gone
+    cases.append({'behaviours': [E, D, E, E, E], 'recycle': 2, 'consume': 'full', 'ids_iterator': 'next_keeps_raising', 'listing_fails_after': 3})
+    cases.append({'behaviours': [E, E], 'recycle': 3, 'consume': 'full', 'ids_iterator': 'next_keeps_raising', 'listing_fails_after': 0})
     # the timeout given as a decimal / a fraction (settings parsed from a file)
     cases.append({'behaviours': [E, 'hang', E, E, E], 'recycle': 2, 'timeout': 1.0, 'timeout_type': 'decimal', 'consume': 'full'})
     cases.append({'behaviours': ['hang', E], 'recycle': 3, 'timeout': 1.0, 'timeout_type': 'fraction', 'consume': 'full'})
@@ -131,7 +134,16 @@ def judge(ctx, case, res, w):
         if 'KeyboardInterrupt' not in (res['error'] or ''):
             ctx.inconclusive('harness: the interrupt did not reach the consumer (%s)' % res['error'])
             return problems
-    if case['consume'] == 'full' and (not res['finished'] or res['error']):
+    if case.get('ids_iterator') == 'next_keeps_raising':
+        # the caller's listing fails for good after k ids: the run ENDS (with the listing's own error), the ids handed out before got their
+        # verdicts, nothing is left behind
+        n_expected = case['listing_fails_after']
+        if len(res['results']) == n_expected + 1 and res['results'][-1]['status'] == 'EqualizerFailure':
+            n_expected += 1                  # (reporting the listing's failure as one more failure comparison is a way of ending, too)
+        ctx.count('runs_whose_listing_fails_for_good')
+        if res['error'] and 'listing failed' not in res['error']:
+            problems.append(('a comparison run whose listing fails for good did not end (with the listing\'s error or normally): %s' % res['error'], {}))
+    elif case['consume'] == 'full' and (not res['finished'] or res['error']):
         problems.append(('comparison run did not finish normally: %s' % (res['error'] or 'generator not exhausted'), {}))
     if len(res['results']) != n_expected:
         problems.append(('run yielded %d comparisons, %d expected' % (len(res['results']), n_expected), {}))
